@@ -20,19 +20,16 @@ Theorem C03_roundtrip_varint :
   forall v rest, (- 2 ^ 31 <= v < 2 ^ 31)%Z ->
   read_varint (write_varint v ++ rest) = Ok (v, rest).
 Proof. exact roundtrip_varint. Qed.
-Print Assumptions C03_roundtrip_varint.
 
 Theorem C03_prefix_rejected_varint :
   forall v p q, (- 2 ^ 31 <= v < 2 ^ 31)%Z -> q <> [] ->
   write_varint v = p ++ q -> exists e, read_varint p = Err e.
 Proof. exact prefix_rejected_varint. Qed.
-Print Assumptions C03_prefix_rejected_varint.
 
 Theorem C03_consumed_varint :
   forall v rest, (- 2 ^ 31 <= v < 2 ^ 31)%Z ->
   read_varint_n (write_varint v ++ rest) = Ok ((v, len (write_varint v)), rest).
 Proof. exact consumed_varint. Qed.
-Print Assumptions C03_consumed_varint.
 
 Example C03_ex_varint :
   (- 2 ^ 31 <= -2147483648 < 2 ^ 31)%Z /\
@@ -41,41 +38,43 @@ Example C03_ex_varint :
   read_varint [128; 128; 128; 128] = Err EEOF.
 Proof. exact ex_varint. Qed.
 
+(* one Print Assumptions for all theorems of the section above (a pair is closed iff both components are) *)
+Definition C03_section_1 := (C03_roundtrip_varint, C03_prefix_rejected_varint, C03_consumed_varint).
+Print Assumptions C03_section_1.
+
 
 (* Booleans and 8-bit integers (ReadByte based: no deviation). *)
 
 Theorem C03_roundtrip_bool :
   forall (v : bool) rest, True -> read_bool (write_bool v ++ rest) = Ok (v, rest).
 Proof. exact roundtrip_bool. Qed.
-Print Assumptions C03_roundtrip_bool.
 
 Theorem C03_prefix_rejected_bool :
   forall (v : bool) p q, True -> q <> [] ->
   write_bool v = p ++ q -> exists e, read_bool p = Err e.
 Proof. exact prefix_rejected_bool. Qed.
-Print Assumptions C03_prefix_rejected_bool.
 
 Theorem C03_roundtrip_uint8 :
   forall v rest, v < 256 -> read_uint8 (write_uint8 v ++ rest) = Ok (v, rest).
 Proof. exact roundtrip_uint8. Qed.
-Print Assumptions C03_roundtrip_uint8.
 
 Theorem C03_prefix_rejected_uint8 :
   forall v p q, v < 256 -> q <> [] ->
   write_uint8 v = p ++ q -> exists e, read_uint8 p = Err e.
 Proof. exact prefix_rejected_uint8. Qed.
-Print Assumptions C03_prefix_rejected_uint8.
 
 Theorem C03_roundtrip_int8 :
   forall v rest, (-128 <= v < 128)%Z -> read_int8 (write_int8 v ++ rest) = Ok (v, rest).
 Proof. exact roundtrip_int8. Qed.
-Print Assumptions C03_roundtrip_int8.
 
 Theorem C03_prefix_rejected_int8 :
   forall v p q, (-128 <= v < 128)%Z -> q <> [] ->
   write_int8 v = p ++ q -> exists e, read_int8 p = Err e.
 Proof. exact prefix_rejected_int8. Qed.
-Print Assumptions C03_prefix_rejected_int8.
+
+(* one Print Assumptions for all theorems of the section above (a pair is closed iff both components are) *)
+Definition C03_section_2 := (C03_roundtrip_bool, C03_prefix_rejected_bool, C03_roundtrip_uint8, C03_prefix_rejected_uint8, C03_roundtrip_int8, C03_prefix_rejected_int8).
+Print Assumptions C03_section_2.
 
 
 (* Fixed-width integers of k bytes, k = 2, 4, 8 (uint16/32/64, float32/64 as bit patterns; int16/32/64,
@@ -87,27 +86,23 @@ Theorem C03_roundtrip_uint :
   forall k, (0 < k)%nat -> forall v rest, v < 256 ^ N.of_nat k ->
   read_uint true (N.of_nat k) (write_uint k v ++ rest) = Ok (v, rest).
 Proof. exact roundtrip_uint. Qed.
-Print Assumptions C03_roundtrip_uint.
 
 Theorem C03_prefix_rejected_uint :
   forall k, (0 < k)%nat -> forall v p q, v < 256 ^ N.of_nat k -> q <> [] ->
   write_uint k v = p ++ q -> exists e, read_uint true (N.of_nat k) p = Err e.
 Proof. exact prefix_rejected_uint. Qed.
-Print Assumptions C03_prefix_rejected_uint.
 
 Theorem C03_roundtrip_int :
   forall k, (0 < k)%nat -> forall v rest,
   (- Z.of_N (2 ^ (8 * N.of_nat k - 1)) <= v < Z.of_N (2 ^ (8 * N.of_nat k - 1)))%Z ->
   read_int true (N.of_nat k) (write_int k v ++ rest) = Ok (v, rest).
 Proof. exact roundtrip_int. Qed.
-Print Assumptions C03_roundtrip_int.
 
 Theorem C03_prefix_rejected_int :
   forall k, (0 < k)%nat -> forall v p q,
   (- Z.of_N (2 ^ (8 * N.of_nat k - 1)) <= v < Z.of_N (2 ^ (8 * N.of_nat k - 1)))%Z -> q <> [] ->
   write_int k v = p ++ q -> exists e, read_int true (N.of_nat k) p = Err e.
 Proof. exact prefix_rejected_int. Qed.
-Print Assumptions C03_prefix_rejected_int.
 
 Example C03_ex_uint64 :
   (0 < 8)%nat /\ 18446744073709551615 < 256 ^ N.of_nat 8 /\
@@ -125,18 +120,19 @@ Theorem C03_impl_uint_off_trigger :
   forall w s, 0 < w -> (s = [] \/ w <= len s) ->
   read_uint false w s = read_uint true w s.
 Proof. exact impl_uint_off_trigger. Qed.
-Print Assumptions C03_impl_uint_off_trigger.
 
 Theorem C03_impl_uint_on_trigger :
   forall w s, 0 < len s < w ->
   read_uint false w s = Ok (be_val (s ++ zeros (w - len s)), []).
 Proof. exact impl_uint_on_trigger. Qed.
-Print Assumptions C03_impl_uint_on_trigger.
 
 Theorem C03_impl_uint16_prefix_accepted :
   sprefix [18] (write_uint 2 4660) /\ impl_read_uint 2 [18] = Ok (4608, []).
 Proof. exact impl_uint16_prefix_accepted. Qed.
-Print Assumptions C03_impl_uint16_prefix_accepted.
+
+(* one Print Assumptions for all theorems of the section above (a pair is closed iff both components are) *)
+Definition C03_section_3 := (C03_roundtrip_uint, C03_prefix_rejected_uint, C03_roundtrip_int, C03_prefix_rejected_int, C03_impl_uint_off_trigger, C03_impl_uint_on_trigger, C03_impl_uint16_prefix_accepted).
+Print Assumptions C03_section_3.
 
 
 (* UUIDs, both layouts (two longs; four ints).  ReadUUIDIntArray inherits finding C03-1 through
@@ -146,25 +142,21 @@ Theorem C03_roundtrip_uuid :
   forall u rest, length u = 16%nat /\ wf_bytes u ->
   read_uuid (write_uuid u ++ rest) = Ok (u, rest).
 Proof. exact roundtrip_uuid. Qed.
-Print Assumptions C03_roundtrip_uuid.
 
 Theorem C03_prefix_rejected_uuid :
   forall u p q, length u = 16%nat /\ wf_bytes u -> q <> [] ->
   write_uuid u = p ++ q -> exists e, read_uuid p = Err e.
 Proof. exact prefix_rejected_uuid. Qed.
-Print Assumptions C03_prefix_rejected_uuid.
 
 Theorem C03_roundtrip_uuid_ints :
   forall u rest, length u = 16%nat /\ wf_bytes u ->
   read_uuid_ints true (write_uuid_ints u ++ rest) = Ok (u, rest).
 Proof. exact roundtrip_uuid_ints. Qed.
-Print Assumptions C03_roundtrip_uuid_ints.
 
 Theorem C03_prefix_rejected_uuid_ints :
   forall u p q, length u = 16%nat /\ wf_bytes u -> q <> [] ->
   write_uuid_ints u = p ++ q -> exists e, read_uuid_ints true p = Err e.
 Proof. exact prefix_rejected_uuid_ints. Qed.
-Print Assumptions C03_prefix_rejected_uuid_ints.
 
 Example C03_ex_uuid :
   let u := [1;2;3;4;5;6;7;8;9;10;11;12;13;14;15;255] in
@@ -177,7 +169,10 @@ Theorem C03_impl_uuid_ints_prefix_accepted :
   dom_uuid u /\ sprefix (firstn 13 u) (write_uuid_ints u) /\
   read_uuid_ints false (firstn 13 u) = Ok ([1;2;3;4;5;6;7;8;9;10;11;12;13;0;0;0], []).
 Proof. exact impl_uuid_ints_prefix_accepted. Qed.
-Print Assumptions C03_impl_uuid_ints_prefix_accepted.
+
+(* one Print Assumptions for all theorems of the section above (a pair is closed iff both components are) *)
+Definition C03_section_4 := (C03_roundtrip_uuid, C03_prefix_rejected_uuid, C03_roundtrip_uuid_ints, C03_prefix_rejected_uuid_ints, C03_impl_uuid_ints_prefix_accepted).
+Print Assumptions C03_section_4.
 
 
 (* Strings (WriteString / ReadStringMax max; ReadString is max = 65536).  Values are arbitrary byte
@@ -189,25 +184,21 @@ Theorem C03_roundtrip_string :
   forall max v rest, (Z.of_N (len v) <= max * 4)%Z /\ (Z.of_N (len v) < 2 ^ 31)%Z ->
   read_string_max max (write_string v ++ rest) = Ok (v, rest).
 Proof. exact roundtrip_string. Qed.
-Print Assumptions C03_roundtrip_string.
 
 Theorem C03_prefix_rejected_string :
   forall max v p q, (Z.of_N (len v) <= max * 4)%Z /\ (Z.of_N (len v) < 2 ^ 31)%Z ->
   q <> [] -> write_string v = p ++ q -> exists e, read_string_max max p = Err e.
 Proof. exact prefix_rejected_string. Qed.
-Print Assumptions C03_prefix_rejected_string.
 
 Theorem C03_bad_length_rejected_string :
   forall max l tail, (- 2 ^ 31 <= l < 2 ^ 31)%Z -> (l < 0 \/ max * 4 < l)%Z ->
   len_string max (write_varint l ++ tail) = Err (if (l <? 0)%Z then ENegLen else EOverLimit) /\
   read_string_max max (write_varint l ++ tail) = Err (if (l <? 0)%Z then ENegLen else EOverLimit).
 Proof. exact bad_length_rejected_string. Qed.
-Print Assumptions C03_bad_length_rejected_string.
 
 Theorem C03_alloc_bounded_string :
   forall max s n r, len_string max s = Ok (n, r) -> (Z.of_N n <= max * 4)%Z.
 Proof. exact alloc_bounded_string. Qed.
-Print Assumptions C03_alloc_bounded_string.
 
 Example C03_ex_string :
   let v := [226; 130; 172; 97] in                         
@@ -226,6 +217,10 @@ Example C03_ex_bad_length :
   read_string_array (write_varint (-1)) = Err ENegLen.
 Proof. exact ex_bad_length. Qed.
 
+(* one Print Assumptions for all theorems of the section above (a pair is closed iff both components are) *)
+Definition C03_section_5 := (C03_roundtrip_string, C03_prefix_rejected_string, C03_bad_length_rejected_string, C03_alloc_bounded_string).
+Print Assumptions C03_section_5.
+
 
 (* Length-prefixed byte arrays (WriteBytes / ReadBytesLen max).  read_bytes_len true = io.ReadFull;
    false = the code as written (one rd.Read), refuted on: empty array at the end of the input,
@@ -235,32 +230,27 @@ Theorem C03_roundtrip_bytes :
   forall max v rest, (Z.of_N (len v) <= max)%Z /\ (Z.of_N (len v) < 2 ^ 31)%Z ->
   read_bytes_len true max (write_bytes v ++ rest) = Ok (v, rest).
 Proof. exact roundtrip_bytes. Qed.
-Print Assumptions C03_roundtrip_bytes.
 
 Theorem C03_prefix_rejected_bytes :
   forall max v p q, (Z.of_N (len v) <= max)%Z /\ (Z.of_N (len v) < 2 ^ 31)%Z ->
   q <> [] -> write_bytes v = p ++ q -> exists e, read_bytes_len true max p = Err e.
 Proof. exact prefix_rejected_bytes. Qed.
-Print Assumptions C03_prefix_rejected_bytes.
 
 Theorem C03_bad_length_rejected_bytes :
   forall fx2 max l tail, (- 2 ^ 31 <= l < 2 ^ 31)%Z -> (l < 0 \/ max < l)%Z ->
   len_bytes max (write_varint l ++ tail) = Err (if (l <? 0)%Z then ENegLen else EOverLimit) /\
   read_bytes_len fx2 max (write_varint l ++ tail) = Err (if (l <? 0)%Z then ENegLen else EOverLimit).
 Proof. exact bad_length_rejected_bytes. Qed.
-Print Assumptions C03_bad_length_rejected_bytes.
 
 Theorem C03_alloc_bounded_bytes :
   forall max s n r, len_bytes max s = Ok (n, r) -> (Z.of_N n <= max)%Z.
 Proof. exact alloc_bounded_bytes. Qed.
-Print Assumptions C03_alloc_bounded_bytes.
 
 Theorem C03_impl_bytes_off_trigger :
   forall max s,
   (forall n r, len_bytes max s = Ok (n, r) -> ~ (n = 0 /\ r = []) /\ ~ (0 < len r < n)) ->
   read_bytes_len false max s = read_bytes_len true max s.
 Proof. exact impl_bytes_off_trigger. Qed.
-Print Assumptions C03_impl_bytes_off_trigger.
 
 Example C03_ex_bytes_empty_at_end :
   read_bytes_len true 65536 (write_bytes [] ++ []) = Ok ([], []) /\
@@ -270,13 +260,15 @@ Proof. exact ex_bytes_empty_at_end. Qed.
 Theorem C03_impl_bytes_empty_at_end :
   impl_read_bytes_len default_max (write_bytes [] ++ []) = Err EEOF.
 Proof. exact impl_bytes_empty_at_end. Qed.
-Print Assumptions C03_impl_bytes_empty_at_end.
 
 Theorem C03_impl_bytes_prefix_accepted :
   sprefix [5;1;2] (write_bytes [1;2;3;4;5]) /\
   impl_read_bytes_len default_max [5;1;2] = Ok ([1;2;0;0;0], []).
 Proof. exact impl_bytes_prefix_accepted. Qed.
-Print Assumptions C03_impl_bytes_prefix_accepted.
+
+(* one Print Assumptions for all theorems of the section above (a pair is closed iff both components are) *)
+Definition C03_section_6 := (C03_roundtrip_bytes, C03_prefix_rejected_bytes, C03_bad_length_rejected_bytes, C03_alloc_bounded_bytes, C03_impl_bytes_off_trigger, C03_impl_bytes_empty_at_end, C03_impl_bytes_prefix_accepted).
+Print Assumptions C03_section_6.
 
 
 (* 1.7-style arrays: extended Forge short (2-byte short, optional third byte) + bytes.  Flags of
@@ -287,43 +279,36 @@ Theorem C03_roundtrip_fshort :
   forall n rest, n < 2 ^ 23 ->
   read_fshort true true (write_fshort true n ++ rest) = Ok (n, rest).
 Proof. exact roundtrip_fshort. Qed.
-Print Assumptions C03_roundtrip_fshort.
 
 Theorem C03_prefix_rejected_fshort :
   forall n p q, n < 2 ^ 23 -> q <> [] ->
   write_fshort true n = p ++ q -> exists e, read_fshort true true p = Err e.
 Proof. exact prefix_rejected_fshort. Qed.
-Print Assumptions C03_prefix_rejected_fshort.
 
 Theorem C03_roundtrip_bytes17 :
   forall ext v e rest, write_bytes17 true ext v = Ok e ->
   read_bytes17 true true true (e ++ rest) = Ok (v, rest).
 Proof. exact roundtrip_bytes17. Qed.
-Print Assumptions C03_roundtrip_bytes17.
 
 Theorem C03_prefix_rejected_bytes17 :
   forall ext v e p q, write_bytes17 true ext v = Ok e -> q <> [] ->
   e = p ++ q -> exists er, read_bytes17 true true true p = Err er.
 Proof. exact prefix_rejected_bytes17. Qed.
-Print Assumptions C03_prefix_rejected_bytes17.
 
 Theorem C03_write_bytes17_domain :
   forall fx3 ext v,
   (exists e, write_bytes17 fx3 ext v = Ok e) <-> len v <= (if ext then forge_max else 32767).
 Proof. exact write_bytes17_domain. Qed.
-Print Assumptions C03_write_bytes17_domain.
 
 Theorem C03_bad_length_rejected_bytes17 :
   forall fx2 n tail, n < 2 ^ 23 -> forge_max < n ->
   len_bytes17 true true (write_fshort true n ++ tail) = Err EOverLimit /\
   read_bytes17 true fx2 true (write_fshort true n ++ tail) = Err EOverLimit.
 Proof. exact bad_length_rejected_bytes17. Qed.
-Print Assumptions C03_bad_length_rejected_bytes17.
 
 Theorem C03_alloc_bounded_bytes17 :
   forall fx1 fx3 s n r, len_bytes17 fx1 fx3 s = Ok (n, r) -> n <= forge_max.
 Proof. exact alloc_bounded_bytes17. Qed.
-Print Assumptions C03_alloc_bounded_bytes17.
 
 Example C03_ex_bytes17 :
   let v := repeat 7 300 in
@@ -340,17 +325,22 @@ Theorem C03_impl_bytes17_300 :
   read_bytes17 true true false (44 :: v) = Ok (repeat 7 44, repeat 7 256) /\
   read_bytes17 false false false (44 :: v) = Ok (repeat 7 44, repeat 7 256).
 Proof. exact impl_bytes17_300. Qed.
-Print Assumptions C03_impl_bytes17_300.
 
 Theorem C03_impl_fshort_differs :
   impl_write_fshort 5 = [5] /\ spec_write_fshort 5 = [0; 5].
 Proof. exact impl_fshort_differs. Qed.
-Print Assumptions C03_impl_fshort_differs.
+
+(* one Print Assumptions for all theorems of the section above (a pair is closed iff both components are) *)
+Definition C03_section_7 := (C03_roundtrip_fshort, C03_prefix_rejected_fshort, C03_roundtrip_bytes17, C03_prefix_rejected_bytes17, C03_write_bytes17_domain, C03_bad_length_rejected_bytes17, C03_alloc_bounded_bytes17, C03_impl_bytes17_300, C03_impl_fshort_differs).
+Print Assumptions C03_section_7.
 
 
 (* Counted sequences: string arrays, VarInt arrays (ReadVarIntArray = ReadIntArray), profile
-   properties.  Negative counts are rejected by the header before make(), the capacity passed to make()
-   is at most MaxPreAllocSize; ReadProperties as written lacks the test and panics (finding C03-4). *)
+   properties.  The model's loop carries fuel 1 + remaining bytes; counted_loop_fuel_irrelevant shows
+   that any larger fuel gives the same result (every element read consumes a byte), i.e. it is the
+   unbounded Go loop.  Negative counts are rejected by the header before make(), the capacity passed to
+   make() is at most MaxPreAllocSize; ReadProperties as written lacks the test and panics (finding
+   C03-4). *)
 
 Theorem C03_roundtrip_string_array :
   forall vs rest,
@@ -358,7 +348,6 @@ Theorem C03_roundtrip_string_array :
   (Z.of_nat (length vs) < 2 ^ 31)%Z ->
   read_string_array (write_strings vs ++ rest) = Ok (vs, rest).
 Proof. exact roundtrip_string_array. Qed.
-Print Assumptions C03_roundtrip_string_array.
 
 Theorem C03_prefix_rejected_string_array :
   forall vs p q,
@@ -366,55 +355,56 @@ Theorem C03_prefix_rejected_string_array :
   (Z.of_nat (length vs) < 2 ^ 31)%Z ->
   q <> [] -> write_strings vs = p ++ q -> exists e, read_string_array p = Err e.
 Proof. exact prefix_rejected_string_array. Qed.
-Print Assumptions C03_prefix_rejected_string_array.
 
 Theorem C03_roundtrip_varint_array :
   forall vs rest,
   Forall (fun v => (- 2 ^ 31 <= v < 2 ^ 31)%Z) vs /\ (Z.of_nat (length vs) < 2 ^ 31)%Z ->
   read_varint_array (write_varint_array vs ++ rest) = Ok (vs, rest).
 Proof. exact roundtrip_varint_array. Qed.
-Print Assumptions C03_roundtrip_varint_array.
 
 Theorem C03_prefix_rejected_varint_array :
   forall vs p q,
   Forall (fun v => (- 2 ^ 31 <= v < 2 ^ 31)%Z) vs /\ (Z.of_nat (length vs) < 2 ^ 31)%Z ->
   q <> [] -> write_varint_array vs = p ++ q -> exists e, read_varint_array p = Err e.
 Proof. exact prefix_rejected_varint_array. Qed.
-Print Assumptions C03_prefix_rejected_varint_array.
 
 Theorem C03_roundtrip_properties :
   forall ps rest,
   Forall dom_property ps /\ (Z.of_nat (length ps) < 2 ^ 31)%Z ->
   read_properties true (write_properties ps ++ rest) = Ok (ps, rest).
 Proof. exact roundtrip_properties. Qed.
-Print Assumptions C03_roundtrip_properties.
 
 Theorem C03_prefix_rejected_properties :
   forall ps p q,
   Forall dom_property ps /\ (Z.of_nat (length ps) < 2 ^ 31)%Z ->
   q <> [] -> write_properties ps = p ++ q -> exists e, read_properties true p = Err e.
 Proof. exact prefix_rejected_properties. Qed.
-Print Assumptions C03_prefix_rejected_properties.
 
 Theorem C03_roundtrip_properties_impl :
   forall ps rest,
   Forall dom_property ps /\ (Z.of_nat (length ps) < 2 ^ 31)%Z ->
   read_properties false (write_properties ps ++ rest) = Ok (ps, rest).
 Proof. exact roundtrip_properties_impl. Qed.
-Print Assumptions C03_roundtrip_properties_impl.
 
 Theorem C03_negative_count_rejected :
   forall (A : Type) (d : dec_t A) neg l tail, (- 2 ^ 31 <= l < 0)%Z ->
   len_counted neg (write_varint l ++ tail) = Err neg /\
   read_counted neg d (write_varint l ++ tail) = Err neg.
 Proof. exact negative_count_rejected. Qed.
-Print Assumptions C03_negative_count_rejected.
 
 Theorem C03_alloc_bounded_counted :
   forall neg s l c r, len_counted neg s = Ok ((l, c), r) ->
   (0 <= c <= max_pre_alloc)%Z /\ (c <= l)%Z.
 Proof. exact alloc_bounded_counted. Qed.
-Print Assumptions C03_alloc_bounded_counted.
+
+Theorem C03_counted_loop_fuel_irrelevant :
+  (forall {A} (d : dec_t A), (forall s a r, d s = Ok (a, r) -> (length r < length s)%nat) ->
+     forall f1 f2 n s, (length s < f1)%nat -> (length s < f2)%nat -> read_n d f1 n s = read_n d f2 n s) /\
+  (forall s a r, read_string s = Ok (a, r) -> (length r < length s)%nat) /\
+  (forall s a r, read_varint s = Ok (a, r) -> (length r < length s)%nat) /\
+  (forall s a r, read_property s = Ok (a, r) -> (length r < length s)%nat) /\
+  (forall s a r, read_key s = Ok (a, r) -> (length r < length s)%nat).
+Proof. exact counted_loop_fuel_irrelevant. Qed.
 
 Example C03_ex_properties :
   let ps := [([110], ([118], [])); ([97; 98], ([], [115; 105; 103]))] in
@@ -428,7 +418,10 @@ Theorem C03_impl_properties_negative_panics :
   forall tail, read_properties false (write_varint (-1) ++ tail) = Err EPanic /\
   read_properties true (write_varint (-1) ++ tail) = Err ENegLen.
 Proof. exact impl_properties_negative_panics. Qed.
-Print Assumptions C03_impl_properties_negative_panics.
+
+(* one Print Assumptions for all theorems of the section above (a pair is closed iff both components are) *)
+Definition C03_section_8 := (C03_roundtrip_string_array, C03_prefix_rejected_string_array, C03_roundtrip_varint_array, C03_prefix_rejected_varint_array, C03_roundtrip_properties, C03_prefix_rejected_properties, C03_roundtrip_properties_impl, C03_negative_count_rejected, C03_alloc_bounded_counted, C03_counted_loop_fuel_irrelevant, C03_impl_properties_negative_panics).
+Print Assumptions C03_section_8.
 
 
 (* UTF strings (WriteUTF / ReadUTF).  The uint16 length goes through ReadUint16, so finding C03-1
@@ -437,13 +430,15 @@ Print Assumptions C03_impl_properties_negative_panics.
 Theorem C03_roundtrip_utf :
   forall v rest, len v < 65536 -> read_utf true (write_utf v ++ rest) = Ok (v, rest).
 Proof. exact roundtrip_utf. Qed.
-Print Assumptions C03_roundtrip_utf.
 
 Theorem C03_prefix_rejected_utf :
   forall v p q, len v < 65536 -> q <> [] ->
   write_utf v = p ++ q -> exists e, read_utf true p = Err e.
 Proof. exact prefix_rejected_utf. Qed.
-Print Assumptions C03_prefix_rejected_utf.
+
+Theorem C03_alloc_bounded_utf :
+  forall fx1 s n r, wf_bytes s -> read_uint fx1 2 s = Ok (n, r) -> n < 65536.
+Proof. exact alloc_bounded_utf. Qed.
 
 Example C03_ex_utf :
   len [104; 105] < 65536 /\ write_utf [104; 105] = [0; 2; 104; 105] /\
@@ -454,7 +449,10 @@ Proof. exact ex_utf. Qed.
 Theorem C03_impl_utf_prefix_accepted :
   sprefix [0] (write_utf []) /\ read_utf false [0] = Ok ([], []).
 Proof. exact impl_utf_prefix_accepted. Qed.
-Print Assumptions C03_impl_utf_prefix_accepted.
+
+(* one Print Assumptions for all theorems of the section above (a pair is closed iff both components are) *)
+Definition C03_section_9 := (C03_roundtrip_utf, C03_prefix_rejected_utf, C03_alloc_bounded_utf, C03_impl_utf_prefix_accepted).
+Print Assumptions C03_section_9.
 
 
 (* Resource keys (WriteKey / ReadKey, arrays, minimal keys).  dom_key = valid key (ValidateKey) with a
@@ -464,44 +462,37 @@ Print Assumptions C03_impl_utf_prefix_accepted.
 Theorem C03_roundtrip_key :
   forall k e rest, dom_key k -> write_key k = Ok e -> read_key (e ++ rest) = Ok (k, rest).
 Proof. exact roundtrip_key. Qed.
-Print Assumptions C03_roundtrip_key.
 
 Theorem C03_prefix_rejected_key :
   forall k e p q, dom_key k -> write_key k = Ok e -> q <> [] ->
   e = p ++ q -> exists er, read_key p = Err er.
 Proof. exact prefix_rejected_key. Qed.
-Print Assumptions C03_prefix_rejected_key.
 
 Theorem C03_write_key_total :
   forall k, dom_key k -> exists e, write_key k = Ok e.
 Proof. exact write_key_total. Qed.
-Print Assumptions C03_write_key_total.
 
 Theorem C03_roundtrip_key_array :
   forall ks e rest,
   Forall dom_key ks /\ (Z.of_nat (length ks) < 2 ^ 31)%Z -> write_key_array ks = Ok e ->
   read_key_array (e ++ rest) = Ok (ks, rest).
 Proof. exact roundtrip_key_array. Qed.
-Print Assumptions C03_roundtrip_key_array.
 
 Theorem C03_prefix_rejected_key_array :
   forall ks e p q,
   Forall dom_key ks /\ (Z.of_nat (length ks) < 2 ^ 31)%Z -> write_key_array ks = Ok e -> q <> [] ->
   e = p ++ q -> exists er, read_key_array p = Err er.
 Proof. exact prefix_rejected_key_array. Qed.
-Print Assumptions C03_prefix_rejected_key_array.
 
 Theorem C03_roundtrip_minimal_key :
   forall k rest, dom_key k /\ dom_string0 (key_minimal k) ->
   read_minimal_key true (write_minimal_key k ++ rest) = Ok (k, rest).
 Proof. exact roundtrip_minimal_key. Qed.
-Print Assumptions C03_roundtrip_minimal_key.
 
 Theorem C03_prefix_rejected_minimal_key :
   forall k p q, dom_key k /\ dom_string0 (key_minimal k) -> q <> [] ->
   write_minimal_key k = p ++ q -> exists e, read_minimal_key true p = Err e.
 Proof. exact prefix_rejected_minimal_key. Qed.
-Print Assumptions C03_prefix_rejected_minimal_key.
 
 Example C03_ex_key :
   let k := ([102; 111; 111], [98; 97; 114; 47; 122]) in       
@@ -518,7 +509,10 @@ Theorem C03_impl_minimal_key_namespace :
   impl_read_minimal_key (write_minimal_key k) = Ok ((minecraft, [102;111;111;58;98;97;114]), []) /\
   spec_read_minimal_key (write_minimal_key k) = Ok (k, []).
 Proof. exact impl_minimal_key_namespace. Qed.
-Print Assumptions C03_impl_minimal_key_namespace.
+
+(* one Print Assumptions for all theorems of the section above (a pair is closed iff both components are) *)
+Definition C03_section_10 := (C03_roundtrip_key, C03_prefix_rejected_key, C03_write_key_total, C03_roundtrip_key_array, C03_prefix_rejected_key_array, C03_roundtrip_minimal_key, C03_prefix_rejected_minimal_key, C03_impl_minimal_key_namespace).
+Print Assumptions C03_section_10.
 
 
 (* All specification-level codecs at once (codec_ok = exact inverse on the domain /\ every strict
@@ -547,4 +541,5 @@ Theorem C03_all :
   codec_ok (dom_list dom_key) (write_counted (fun k => write_string (key_string k))) read_key_array /\
   codec_ok dom_minkey write_minimal_key (read_minimal_key true).
 Proof. exact C03_all_spec. Qed.
+
 Print Assumptions C03_all.
